@@ -1,28 +1,32 @@
-/- C16 driver: `auth <contract> <Variant> <role> <phase> <payload-seed>` -> the model's verdict.
+/- C16 driver: `auth <contract> <Variant> <role> <phase> <payload-seed> [<object>]` -> the model's verdict.
    `ok`  = the authorisation layer of the target admits the sender (the real call may still fail later
            for payload reasons);  `err` = rejected as unauthorised.
    `nested=1` = admitted by the target, but a hub contract the target calls as itself refuses it
-   (e.g. the factory forwarding UpdateConfig to a pair whose ownership was transferred away).
-   Stateless: the phase token selects the state (`before` = genesis, `after` = after the transfer script). -/
+   (e.g. the factory forwarding UpdateConfig to a pair whose ownership was transferred away, the vault
+   router borrowing from a vault that has a loan in flight).
+   Stateless: the phase token selects the state (`before` = genesis, `after` = after the transfer script,
+   `inloan` = genesis with a flash loan of the vault in flight). The object token is present exactly for
+   the messages that name a stored flow (incentive CloseFlow) and says which one. -/
 import Driver.Util
 import WW.Model.Auth
 namespace Driver
 open WW WW.Auth
 
-def authState (phase : String) : Option St :=
-  if phase == "before" then some St.init
-  else if phase == "after" then St.afterTransfer.toOption
-  else none
+def authVerdict (m : Msg) (role : Role) (s : St) (sel : FlowSel) : String :=
+  if admits s m sel role then
+    "ok nested=" ++ (if nestedRefusal s m sel role then "1" else "0")
+  else "err nested=0"
 
 def authLine (ws : List String) : String :=
   match ws with
   | [c, v, r, phase, seed] =>
-    match Msg.ofNames c v, Role.ofName r, authState phase, seed.toNat? with
-    | some m, some role, some s, some _ =>
-      if admits s m role then
-        "ok nested=" ++ (if nestedRefusal s m role then "1" else "0")
-      else "err nested=0"
+    match Msg.ofNames c v, Role.ofName r, phaseState phase, seed.toNat? with
+    | some m, some role, some s, some _ => if m.namesFlow then "bad-op" else authVerdict m role s .none
     | _, _, _, _ => "bad-op"
+  | [c, v, r, phase, seed, obj] =>
+    match Msg.ofNames c v, Role.ofName r, phaseState phase, seed.toNat?, FlowSel.ofName obj with
+    | some m, some role, some s, some _, some sel => if m.namesFlow then authVerdict m role s sel else "bad-op"
+    | _, _, _, _, _ => "bad-op"
   | _ => "bad-op"
 
 /-- `authrule <contract> <Variant>` -> the table entry (for audits / the evidence file) -/
